@@ -4,7 +4,7 @@ import os
 import re
 
 from . import rustlex
-from .spec import Fn, Type, Impl
+from .spec import Fn, Type, Impl, Raw
 
 
 class Undecided(Exception):
@@ -310,6 +310,7 @@ class Generated:
         self.assumptions = []
         self.shape_changed = {}  # fn key -> notes (loop structure differs from the contract table)
         self.keyed_loops = {}    # fn key -> ordinals of loops that were matched by their header text
+        self.raw_keys = set()    # keys of hand-written refinement checks
 
     def text(self):
         return "\n".join(self.lines) + "\n"
@@ -589,7 +590,12 @@ def generate(unit, probe_labels=frozenset()):
         slot = m.group(1)
         used.add(slot)
         for it in by_slot.get(slot, []):
-            if isinstance(it, Type):
+            if isinstance(it, Raw):
+                out = [(l, {"kind": "raw"}) for l in it.text.split("\n")]
+                info = {"key": it.key, "file": "(contract table)", "lines": [0, 0], "sha256": hashlib.sha256(it.text.encode()).hexdigest(), "mode": "raw", "name": it.key}
+                infos = []
+                g.raw_keys.add(it.key)
+            elif isinstance(it, Type):
                 out, info = gen_type(it, g)
                 infos = []
             elif isinstance(it, Impl):
